@@ -153,12 +153,22 @@ def demoBody (T r : Nat) : Prog Nat Nat :=
       | .oof => .ret .oof
   | _ => .ret (.err 9)
 
-def demo : Doc Nat Nat := ⟨demoBody, fun r fs => .ok (1000 * r + fs.length), 5⟩
+/-- the re-resolve of a failed load: object 3 sits in "object stream" 1 -/
+def demoRelog (r : Nat) : Prog Nat Nat := if r = 3 then .get 1 1 .ret else .ret (.ok 0)
+
+def demo : Doc Nat Nat := ⟨demoBody, demoRelog, fun r fs => .ok (1000 * r + fs.length), 5⟩
 def demoFilt (r : Nat) : List Nat := [r]
 def demoRank (r : Nat) : Nat := if r ≤ 3 then r else 0
 
 theorem demo_wf : WF demo demoFilt demoRank := by
-  refine ⟨fun T r => ?_, fun r fs => by simp [demo]⟩
+  refine ⟨fun T r => ?_, fun r => ?_, fun r fs => by simp [demo]⟩
+  rotate_left
+  · show Fine _ _ (demoRelog r)
+    unfold demoRelog
+    split
+    · rename_i h; subst h
+      exact .get _ _ _ (by simp [demoRank]) fun x hx => .ret x hx
+    · exact .ret _ (by simp)
   show Fine _ _ (demoBody T r)
   unfold demoBody
   split
@@ -211,7 +221,7 @@ def cycBody (T r : Nat) : Prog Nat Nat :=
       | .oof => .ret .oof
   | _ => .ret (.err 9)
 
-def cyc : Doc Nat Nat := ⟨cycBody, fun _ _ => .ok 0, 5⟩
+def cyc : Doc Nat Nat := ⟨cycBody, fun _ => .ret (.ok 0), fun _ _ => .ok 0, 5⟩
 
 theorem cyc_fine : ∀ T r, Fine (fun _ => []) (fun r' => r' < 3) (cyc.body T r) := by
   intro T r
